@@ -966,9 +966,9 @@ func main() {
 	}
 	// read-option LISTS (order, nil after non-nil, WithReadPaths then WithReadMask, unrelated options)
 	otie := res.Tie("read-options", "K1",
-		"lists of 0-4 resource.ReadOption values (WithReadMask incl. nil and empty masks, WithReadPaths incl. no paths and paths fieldmaskpb.New rejects, WithUpdatesOnly, WithBackpressure, WithInclude, EmptyReadOption) in every order at ComputeReadConfig (configured request + ReadRequest.FilterClone + ResponseFilter().FilterClone), Value.Get, Collection.Get, Collection.List, the seed of Value.Pull and Collection.PullID, and lists of masks.WithFieldMask/WithFieldMaskPaths at masks.NewResponseFilter, against the Lean fold (ScVerif/C06/Opts.lean: computeReadConfig / readWith / newResponseFilter); a fixed family of list shapes (none, nil, mask, mask+nil, nil+mask, mask+mask, paths+nil, mask+paths, parent+child) runs first at every site; non-trivial = at least two options; distinct by (site, options, message)")
+		"lists of 0-4 resource.ReadOption values (WithReadMask incl. nil and empty masks, WithReadPaths incl. no paths and paths fieldmaskpb.New rejects, WithUpdatesOnly, WithBackpressure, WithInclude, EmptyReadOption) in every order at ComputeReadConfig (configured request + ReadRequest.FilterClone + ResponseFilter().FilterClone), Value.Get, Collection.Get, Collection.List, the seed of Value.Pull and Collection.PullID, and lists of masks.WithFieldMask/WithFieldMaskPaths at masks.NewResponseFilter, against the Lean fold (ScVerif/C06/Opts.lean: computeReadConfig / readWith / newResponseFilter); a fixed family of list shapes (none, nil, mask, mask+nil, nil+mask, mask+mask, paths+nil, mask+paths, parent+child) runs first at every site, then one WithReadPaths per KIND of descriptor-derived corrupted path (corrupt.go: below every scalar / repeated / map field an arbitrary segment, an index and every name the descriptor graph offers there — map entry key / value, fields of a message-typed map value, fields of the repeated element —, unknown and empty segments, to depth 3), later a sample of that family drawn kind-first (thorough: all of it, every root) with the message populated where the path goes wrong; non-trivial = at least two options; distinct by (site, options, message)")
 	omon := res.Monitor("read-option-lists",
-		"for every option list: the read returns the independent projection of the stored message onto the mask of the RIGHT-MOST read-mask option (WithReadMask/WithReadPaths; nil or no such option = everything, no paths = nothing) — so a later WithReadMask(nil) switches an earlier mask off and the last of two masks wins; options that are not read-mask options do not change it; the last WithInclude decides what List returns; the stored message is unchanged; no panic except WithReadPaths with a path that is not part of the message")
+		"for every option list: the read returns the independent projection of the stored message onto the mask of the RIGHT-MOST read-mask option (WithReadMask/WithReadPaths; nil or no such option = everything, no paths = nothing) — so a later WithReadMask(nil) switches an earlier mask off and the last of two masks wins; options that are not read-mask options do not change it; the last WithInclude decides what List returns; the stored message is unchanged; no panic except WithReadPaths with a path that is not part of the message, and building a WithReadPaths with ANY such path (unknown segment, continuation through a scalar, map or repeated field whatever the next segment is called) does panic")
 	runOptionCases(seededOptionCases(), otie, omon, drv)
 	var ocs []ocase
 	for i, n := 0, f.N(1500, 30000); i < n; i++ {
